@@ -6,6 +6,7 @@ import (
 	"fmt"
 	"os"
 	"path/filepath"
+	"regexp"
 	"runtime"
 	"sort"
 	"strings"
@@ -15,6 +16,8 @@ import (
 )
 
 // ---- known findings / undecided / baseline files (committed under /verif, never written by a check) ----
+
+var callOrdinal = regexp.MustCompile(`#\d+(\.\d+)?`)
 
 type Finding struct {
 	Property string `json:"property"`
@@ -33,7 +36,7 @@ type FindingsFile struct {
 }
 
 type Undecided struct {
-	Group  string `json:"group"`  // obligation group name (prefix match allowed with trailing *)
+	Group  string `json:"group"` // obligation group name (prefix match allowed with trailing *)
 	Reason string `json:"reason"`
 }
 
@@ -110,9 +113,14 @@ func runCheck(args []string) {
 	quickTier = *tier == "quick" && !*updateBaseline
 	seed := 0
 	fmt.Sscan(os.Getenv("VERIF_SEED"), &seed)
-	timeout := 20
+	// the baseline run (20 s per solver) lists every obligation that needs more than 12 s as slow; the quick tier
+	// skips those and gives the others 40 s, so that a loaded machine does not turn a 12 s query into an alarm
+	timeout := 40
+	if *updateBaseline {
+		timeout = 20
+	}
 	if *tier == "thorough" {
-		timeout = 120
+		timeout = 60
 	}
 	if *timeoutFlag > 0 {
 		timeout = *timeoutFlag
@@ -424,13 +432,23 @@ func runCheck(args []string) {
 		}
 	}
 	// baseline: every group recorded for this property must still exist
+	// (compared without the configuration suffix: the quick tier runs a sub-range of the configurations
+	// the baseline was recorded with; a clause, call site or loop that disappears does so under every configuration)
+	// ... and without the unrolling ordinal of a call site (#iteration.k), which exists only for large enough tables
+	normGroup := func(g string) string { return callOrdinal.ReplaceAllString(stripCfg(g), "#") }
 	present := map[string]bool{}
 	for _, gn := range order {
-		present[gn] = true
+		present[normGroup(gn)] = true
 	}
 	if !*updateBaseline {
-		for _, gn := range base.Groups[*prop] {
+		reported := map[string]bool{}
+		for _, g0 := range base.Groups[*prop] {
+			gn := normGroup(g0)
+			if reported[gn] {
+				continue
+			}
 			if !present[gn] {
+				reported[gn] = true
 				if _, ok := isUndecided(gn); ok {
 					continue
 				}
@@ -521,4 +539,3 @@ func finish(prop, tier string, seed int, t0 time.Time, cov map[string]interface{
 	}
 	os.Exit(0)
 }
-
